@@ -385,7 +385,7 @@ def removeAckedFromRetransmission (s : Tcb) (sndUna : Seq) : Tcb :=
 /-- `Tcb::ack_established_processing` -/
 def ackEstablishedProcessing (s : Tcb) (seg : Hdr) : M ProcessSegmentResult :=
   if modLeq seg.ack s.snd.una then .ok (s, .Success)
-  else if modGt seg.ack s.snd.nxt then
+  else if !modBounded s.snd.una .Lt seg.ack .Leq s.snd.nxt then
     match s.enqueue s.ackHdr with
     | .error e => .error e
     | .ok s => .ok (s, .InvalidAck)
